@@ -685,3 +685,47 @@ def new_parameter_values(fname):
     except Exception:
         pass
     return out
+
+
+
+_POOL = {}
+
+
+def _pooled(name, items):
+    """ONE long-lived list per (role, length), refilled in place: the object an RP keeps its policy in and edits when the policy changes"""
+    L = _POOL.setdefault((name, len(items)), [None] * len(items))
+    for i, x in enumerate(items):
+        L[i] = x
+    return L
+
+
+def reused_policy_containers(entry, pol, val, cdj, pr):
+    """the call `entry(credential=val, **pol.kwargs())` made with the RP's long-lived policy containers: the SAME list objects as in earlier calls, which a moment ago
+    held another policy of the same length (one that would have let this response's origin / any algorithm through) and were edited in place since.  The outcome is that of
+    the policy the containers hold NOW.  -> outcome line, or None when the policy has no list to pool"""
+    import json as _json
+    kw = pol.kwargs()
+    eo = kw.get("expected_origin")
+    origins = [eo] if type(eo) is str else list(eo) if type(eo) is list else None
+    if not origins:
+        return None
+    try:
+        co = _json.loads(bytes(cdj)).get("origin")
+    except Exception:
+        co = None
+    if not isinstance(co, str):
+        co = "https://retired.example"
+    before = {"expected_origin": [co] + origins[1:]}
+    now = {"expected_origin": origins}
+    if kw.get("supported_pub_key_algs") is not None and type(kw["supported_pub_key_algs"]) is list and kw["supported_pub_key_algs"]:
+        algs = kw["supported_pub_key_algs"]
+        every = [type(algs[0])(x) if not isinstance(x, type(algs[0])) and isinstance(algs[0], int) and x in (-7, -257, -8, -36, -37, -38, -39, -258, -259, -65535) else x for x in (-7, -257, -8, -36, -37, -38, -39, -258, -259, -65535)]
+        before["supported_pub_key_algs"] = [every[i % len(every)] for i in range(len(algs))]
+        now["supported_pub_key_algs"] = list(algs)
+    out = None
+    for stage in (before, now):
+        kw2 = dict(kw)
+        for k, items in stage.items():
+            kw2[k] = _pooled(k, items)
+        out = outcome(lambda: entry(credential=val, **kw2), pr)
+    return out
